@@ -498,9 +498,21 @@ func (c *Cursor) Filter(ctx context.Context, idxStr string, val []interface{}) e
 		} else {
 			err = c.cursor.Min(ctx)
 		}
+	} else if c.t.Tree.Root.Size() == 0 {
+		// nothing to scan (the tree cursor cannot seek to the end of an empty tree)
+		c.currentKey = nil
+		c.currentRow = nil
+		c.eof = true
+		return nil
 	} else {
 		if c.max != nil {
 			err = c.cursor.Ceil(ctx, c.max)
+			if err == nil {
+				if _, _, ok := c.cursor.Get(); !ok {
+					// every key is below the upper bound: start from the last one
+					err = c.cursor.Max(ctx)
+				}
+			}
 		} else {
 			err = c.cursor.Max(ctx)
 		}
